@@ -16,7 +16,8 @@ def hexDigit (n : Nat) : Char :=
 def hexByte (b : UInt8) : String :=
   String.ofList [hexDigit (b.toNat / 16), hexDigit (b.toNat % 16)]
 
-def hexOfBytes (bs : List UInt8) : String := String.join (bs.map hexByte)
+/-- Hex text of a byte string; the empty string is written `_` so that it survives splitting on spaces. -/
+def hexOfBytes (bs : List UInt8) : String := if bs.isEmpty then "_" else String.join (bs.map hexByte)
 
 def hexVal (c : Char) : Option Nat :=
   if '0' ≤ c ∧ c ≤ '9' then some (c.toNat - 48)
@@ -26,6 +27,7 @@ def hexVal (c : Char) : Option Nat :=
 
 def bytesOfHex : List Char → Option (List UInt8)
   | [] => some []
+  | ['_'] => some []
   | a :: b :: rest => do
     let x ← hexVal a
     let y ← hexVal b
